@@ -18,6 +18,9 @@ from . import c01
 def main(run):
     tier = run.tier
     items = lattice.numeric_lattice(tier)
+    # the same numeric option under menus / ifs (dependencies, `visible if`) that are off: a range applies wherever the
+    # option sits, shown or not
+    items += [it for it in lattice.nest_lattice() if it["point"]["type"] != "bool"]
     gen = ktree.generate(run.seed + 77, 60 if tier == "quick" else 1500)
     extra = set()
     for v in lattice.WIDE_USERS.values():
